@@ -12,9 +12,11 @@ import (
 	"math"
 	"reflect"
 	"runtime"
+	"runtime/debug"
 	"unsafe"
 
 	"github.com/CrowdStrike/csproto"
+	"google.golang.org/protobuf/encoding/protowire"
 	"google.golang.org/protobuf/types/known/timestamppb"
 
 	"verif/mc/checks/codec"
@@ -525,8 +527,23 @@ func (c *ctx) apply(d *csproto.Decoder, o *op, check bool) (kind, msg string) {
 		raw, e := d.Skip(o.tag, csproto.WireType(o.wt))
 		err = e
 		if e == nil && check {
-			if o.wt == 3 || o.wt == 4 || o.wt > 5 {
+			if o.wt == 4 || o.wt > 5 {
 				return fail("unsupported-wire-type-accepted", fmt.Sprintf("Skip accepted wire type %d", o.wt))
+			}
+			if o.wt == 3 {
+				// groups are outside the set the pinned code supports (it rejects them); an implementation that skips them is
+				// not wrong for that, but what it accepts must be a well-formed group of this field number and the cursor
+				// must end behind it (protowire is the reference for groups)
+				n := protowire.ConsumeFieldValue(protowire.Number(o.tag), protowire.StartGroupType, rem)
+				if n < 0 {
+					return fail("accepted-malformed", "Skip accepted a start-group key that is not followed by a well-formed group of that field number")
+				}
+				st, ok := inside(buf, raw)
+				if !ok || st+len(raw) != off+n {
+					return fail("out-of-buffer-slice", fmt.Sprintf("raw slice [%d,%d) vs group end %d", st, st+len(raw), off+n))
+				}
+				expectAdv = n
+				break
 			}
 			pl, re := refwire.PayloadLen(rem, o.wt)
 			if re != nil {
@@ -691,6 +708,7 @@ func worker(sh *ev.Shard) {
 	}
 	if sh.Index == sh.N-1 {
 		allocFamily(sh, c)
+		runFamily(sh, c)
 		sh.Done()
 	}
 	nb := sh.N - 1
@@ -838,6 +856,73 @@ func allocFamily(sh *ev.Shard, c *ctx) {
 	sh.Sample(map[string]any{"family": "declared-length", "declared": "2^k-1, 2^k, 2^k+3 for k<=63, MaxUint64", "remaining_bytes": "0..16", "budget": "64*len(buf)+8192 bytes TotalAlloc per call"})
 }
 
+// runFamily: long runs of one byte value (all 256 values; 64 KiB, thorough also 1 MiB): inputs on which a decoder that
+// descends once per input byte (nested groups, nested lengths, continuation bytes) uses stack or heap out of proportion.
+// Every op, both modes, from offset 0 and 1; budgets per call: TotalAlloc <= 80*len+8192 bytes, goroutine stack growth
+// <= 1 MiB. The worker caps its stack at 256 MiB, so an unbounded descent on the 1 MiB runs ends the worker (attributed
+// to the announced case by the trace-mode re-run).
+func runFamily(sh *ev.Shard, c *ctx) {
+	debug.SetMaxStack(256 << 20)
+	sizes := []int{1 << 16}
+	if sh.Thorough() {
+		sizes = append(sizes, 1<<20)
+	}
+	var ms0, ms1 runtime.MemStats
+	var calls int64
+	for _, n := range sizes {
+		for b := 0; b < 256; b++ {
+			buf := fillBytes(byte(b), n)
+			c.buf = buf
+			c.base = uintptr(unsafe.Pointer(unsafe.SliceData(buf)))
+			for i := range c.ops {
+				o := &c.ops[i]
+				if o.kind == kSeek {
+					continue
+				}
+				for _, m := range []csproto.DecoderMode{csproto.DecoderModeSafe, csproto.DecoderModeFast} {
+					for _, off := range []int64{0, 1} {
+						id := fmt.Sprintf("run/byte=%02x/len=%d/%s/off=%d/%s", b, n, m, off, o.name)
+						sh.Cur(o.name+"/long-run", id)
+						var kind, msg string
+						var grown uint64
+						done := make(chan struct{})
+						runtime.ReadMemStats(&ms0)
+						go func() { // a fresh goroutine: its stack starts small, growth is this call's
+							defer close(done)
+							d := csproto.NewDecoder(buf)
+							d.SetMode(m)
+							d.Seek(off, io.SeekStart)
+							kind, msg = c.apply(d, o, true)
+							var ms runtime.MemStats
+							runtime.ReadMemStats(&ms)
+							if ms.StackInuse > ms0.StackInuse {
+								grown = ms.StackInuse - ms0.StackInuse
+							}
+						}()
+						<-done
+						runtime.ReadMemStats(&ms1)
+						calls++
+						delta := ms1.TotalAlloc - ms0.TotalAlloc
+						budget := uint64(80*len(buf) + 8192)
+						switch {
+						case kind != "":
+							sh.Fail(o.name+"/"+kind, id, detail{Buf: fmt.Sprintf("%02x x %d", b, n), Offset: int(off), Mode: m.String(), Op: o.name, Msg: msg})
+						case delta > budget:
+							sh.Fail(o.name+"/allocation-out-of-proportion", id, detail{Buf: fmt.Sprintf("%02x x %d", b, n), Offset: int(off), Mode: m.String(), Op: o.name, Msg: fmt.Sprintf("TotalAlloc delta %d > budget %d", delta, budget)})
+						case grown > 1<<20 && o.kind != kNested:
+							sh.Fail(o.name+"/stack-out-of-proportion", id, detail{Buf: fmt.Sprintf("%02x x %d", b, n), Offset: int(off), Mode: m.String(), Op: o.name, Msg: fmt.Sprintf("goroutine stack grew by %d bytes during one call", grown)})
+						}
+					}
+				}
+			}
+		}
+	}
+	sh.Count("long_run_family_calls", calls)
+	sh.Count("evals", calls)
+	sh.Count("transitions", calls)
+	sh.Count("traces", calls)
+}
+
 func main() {
 	if sh := ev.ShardFromArgs(); sh != nil {
 		worker(sh)
@@ -851,7 +936,7 @@ func main() {
 	r.Set("max_buffer_length_before_padding", N)
 	r.Set("paddings", []string{"none", "none with cap > len (tail 01...)", "00 x10", "80 x10", "ff x10"})
 	r.Set("operations", len(buildOps()))
-	r.Rule(fmt.Sprintf("explicit-state BFS per buffer: buffers = all byte strings of length <= %d over a 16-symbol wire alphabet, each also with three 10-byte paddings; state = all fields of csproto.Decoder read by reflection; every one of the operations (27 Decode*, Skip x 6 tags x 8 wire types, Seek x 9 offsets x 4 whence, Reset/More/Offset/SetMode/Mode, DecodeNested x 5 targets) is applied in every reachable state and judged against the spec-derived reference (err==nil => item exists, value equal, advance == item length; cursor within [0,len]; over-long declared length => error; returned slices inside the buffer; nested callee not invoked for over-long length). distinct_nontrivial = number of distinct (buffer, decoder state) pairs. Plus the declared-length family with a per-call TotalAlloc budget, run in an address-space-limited subprocess.", N))
+	r.Rule(fmt.Sprintf("explicit-state BFS per buffer: buffers = all byte strings of length <= %d over a 16-symbol wire alphabet, each also with three 10-byte paddings; state = all fields of csproto.Decoder read by reflection; every one of the operations (27 Decode*, Skip x 6 tags x 8 wire types, Seek x 9 offsets x 4 whence, Reset/More/Offset/SetMode/Mode, DecodeNested x 5 targets) is applied in every reachable state and judged against the spec-derived reference (err==nil => item exists, value equal, advance == item length; cursor within [0,len]; over-long declared length => error; returned slices inside the buffer; nested callee not invoked for over-long length). distinct_nontrivial = number of distinct (buffer, decoder state) pairs. Plus the declared-length family with a per-call TotalAlloc budget, run in an address-space-limited subprocess, and the long-run family: 64 KiB (thorough: also 1 MiB) runs of each of the 256 byte values x every op x both modes x offsets 0/1 with per-call budgets on TotalAlloc (80 bytes per input byte) and on goroutine stack growth (1 MiB), worker stack capped at 256 MiB.", N))
 	r.Assume("quick tier, buffers of the longest length class only: states that differ only in a remembered field key of length <= 1 (Decoder.keyStart/keyEnd) are merged; Skip is the only reader of that pair and deviates only when the remembered key is longer than SizeOfTagKey(tag) >= 1, so merged states have equal futures. All shorter buffers and the whole thorough tier use the exact key (all struct fields)")
 	r.Assume("inputs longer than the bound and bytes outside the alphabet are not covered; reference leniency: a 10th varint byte with bits above 2^64 is accepted by both sides")
 	r.Assume("where the cursor rests after an error is unconstrained beyond staying in [0,len] and not moving backwards")
